@@ -734,6 +734,24 @@ func typedHistory(run *core.Run, k *typedKit, imm uint64) {
 			return
 		}
 	}
+	// 3c. the other direction: another key decoded into the PRIVATE key object leaves the public
+	// key object that was generated with it, and the one Public() handed out earlier, as they were
+	pkD, skD := k.newKeys(seedA)
+	var outD any
+	if k.pubOf != nil {
+		outD = k.pubOf(skD)
+	}
+	if !k.unpackSK(skD, append([]byte{}, sB...)) {
+		return
+	}
+	if !bytes.Equal(k.packPK(pkD), bA) || !bytes.Equal(k.use(pkD, fsa, core.NewPRNG(useSeed)), tA) {
+		run.Violate(comp, "operation-modifies-another-object", "after Unpack of another key into the private-key object returned by key generation, the public key from the same call packs or behaves differently")
+		return
+	}
+	if outD != nil && (!bytes.Equal(k.packPK(outD), bA) || !bytes.Equal(k.use(outD, fsa, core.NewPRNG(useSeed)), tA)) {
+		run.Violate(comp, "modifying-a-returned-value-changes-later-results", "the public key object Public() returned changes when another key is decoded into the private key it came from")
+		return
+	}
 	// 4. packing does not hand out internal memory: scribbling over a packed copy changes nothing
 	p1 := k.packPK(pkB)
 	core.Recycle(p1)
